@@ -154,8 +154,11 @@ func hasFeatureWithID(id b6.FeatureID, fbs []*featureBlock) bool {
 	for _, fb := range fbs {
 		ns, ok := fb.NamespaceTable.MaybeEncode(id.Namespace)
 		if ok && ns == fb.Namespaces[id.Type] {
-			_, ok := fb.Map.FindFirst(id.Value)
-			return ok
+			// Several blocks can hold the same namespace when the world was
+			// merged from several indices, so keep looking.
+			if _, ok := fb.Map.FindFirst(id.Value); ok {
+				return true
+			}
 		}
 	}
 	return false
